@@ -247,3 +247,115 @@ def binding_demo(ctx):
             raise Infra("binding demonstration failed: the %s trace was accepted by Trace_Scheduler" % name)
     ctx.cov["binding_demo"] = verdicts
     return True
+
+
+# ---------------------------------------------------------------------------------------------- Seeder (seed.go)
+
+def split_runs(events):
+    runs = []
+    for e in events:
+        if e["e"] == "Reset":
+            runs.append([])
+        runs[-1].append(e)
+    return runs
+
+
+def run_seed_driver(ctx, label, args, timeout=900):
+    binp = ctx.build("sched")
+    out = ctx.tmp("rec-" + label)
+    rc, o = ctx.run([binp, "-out", out] + [str(a) for a in args], timeout=timeout)
+    if rc == 3:
+        raise Infra("sched harness error: " + o[-1500:])
+    if rc is None:
+        raise Infra("sched driver timed out (%s)" % label)
+    if rc != 0:
+        if "panic:" in o or "goroutine " in o:
+            rp = ctx.save_replay("panic-%s-seed%d.txt" % (label, ctx.seed), o[-20000:])
+            ctx.report("panic:" + label, "real code panicked in the seeder driver (%s)" % label, rp)
+            return [], None
+        raise Infra("sched failed rc=%s: %s" % (rc, o[-2000:]))
+    summ = json.load(open(os.path.join(out, "summary.json")))
+    return read_ndjson(os.path.join(out, "trace.ndjson")), summ
+
+
+def validate_seed(ctx, events, label, how, timeout=900, max_reject=3):
+    """Trace_Seeder over a concatenation of repositories (Reset ... ); a rejected run is reported and dropped."""
+    runs = split_runs(events)
+    accepted, rejected, rnd = 0, 0, 0
+    while runs:
+        rnd += 1
+        path = os.path.join(ctx.tmp("val-" + label), "trace-%d.ndjson" % rnd)
+        write_ndjson(path, [e for r in runs for e in r])
+        ok, hwm, ln, r = ctx.validate_trace(SUB, "Trace_Seeder", path, cfg="Trace_Seeder.cfg", timeout=timeout)
+        ctx.cov["states"] += r.distinct
+        ctx.cov["transitions"] += r.generated
+        if ok:
+            accepted += len(runs)
+            break
+        idx = max(hwm - 1, 0) if r.invariant else hwm
+        pos, bad = 0, None
+        for k, es in enumerate(runs):
+            if idx < pos + len(es):
+                bad, off = k, idx - pos
+                break
+            pos += len(es)
+        if bad is None:
+            raise Infra("seeder trace rejected but offending run not found (hwm=%d len=%d)\n%s" % (hwm, ln, r.out[-2000:]))
+        es = runs[bad]
+        ev = es[off]
+        if r.invariant:
+            what = "property %s is violated by what the real Seeder answered" % r.invariant
+            sig = "seeder-invariant:" + r.invariant
+        else:
+            what = "the real Seeder's answer is not the beta of the parent's own ancestor at the seed height"
+            sig = "seeder-rejected:" + ev["e"]
+        rp = ctx.save_replay("%s-run%s-seed%d.json" % (label, es[0].get("run"), ctx.seed),
+                             {"how": how, "verdict": what, "offending_index_in_run": off, "offending_event": ev,
+                              "seeder_interval": es[0].get("si"), "run_events": es})
+        ctx.report(sig, "%s: repository run %s (SeederInterval %s) event #%d %s -> %s" %
+                   (label, es[0].get("run"), es[0].get("si"), off, json.dumps(ev, sort_keys=True), what), rp)
+        rejected += 1
+        ctx.cov["rejected_seeder_runs"] = ctx.cov.get("rejected_seeder_runs", 0) + 1
+        accepted += bad
+        runs = runs[bad + 1:]
+        if rejected >= max_reject:
+            break
+        if runs:
+            # the SeederInterval is read from the first Reset of the file: keep it
+            runs[0][0]["si"] = es[0].get("si")
+    ctx.cov["traces_validated_against_impl"] += accepted
+    return accepted
+
+
+def seed_binding_demo(ctx, events):
+    """One recorded repository run with (a) one Generate answer replaced by another seed of the same run, (b) one Blk
+    event deleted must be rejected; untouched must be accepted (else the full validation decides)."""
+    runs = split_runs(events)
+    if not runs:
+        return False
+    es = runs[0]
+    gens = [i for i, e in enumerate(es) if e["e"] == "Gen" and e["got"] != "none"]
+    blks = [i for i, e in enumerate(es) if e["e"] == "Blk"]
+    if len(gens) < 4:
+        raise Infra("seeder binding demo: run without seeds")
+    i = gens[len(gens) * 3 // 4]
+    other = [es[j]["got"] for j in gens if es[j]["got"] != es[i]["got"]]
+    if not other:
+        raise Infra("seeder binding demo: only one seed in the run")
+    bad = [dict(e) for e in es]
+    bad[i]["got"] = other[0]
+    j = blks[len(blks) // 2]
+    dele = es[:j] + es[j + 1:]
+    verdicts = {}
+    for name, evs in (("untouched", es), ("seed-answer-replaced", bad), ("block-deleted", dele)):
+        path = os.path.join(ctx.tmp("demo-seed"), name + ".ndjson")
+        write_ndjson(path, evs)
+        ok, hwm, ln, r = ctx.validate_trace(SUB, "Trace_Seeder", path, cfg="Trace_Seeder.cfg", timeout=300)
+        verdicts[name] = "accepted" if ok else "rejected at line %d%s" % (hwm, " (%s)" % r.invariant if r.invariant else "")
+        if name == "untouched" and not ok:
+            ctx.cov["seeder_binding_demo"] = "not performed: the untouched run was rejected"
+            return False
+        if name != "untouched" and ok:
+            raise Infra("binding demonstration failed: the %s seeder trace was accepted by Trace_Seeder" % name)
+    ctx.cov["seeder_binding_demo"] = verdicts
+    return True
